@@ -479,6 +479,11 @@ class QGen:
                 def rng():
                     self.f("Range")
                     lo = R.choice(["0", "0", "1"])
+                    if self.o["range_computed"] and d > 0 and R.random() < 0.25:
+                        # data-dependent LOWER bound with a fixed length
+                        base, _ = self.num(env, 0, "int", True)
+                        self.f("Range_computed_lower")
+                        return f"Range({base}, {base} + {R.choice(['1', '2', '3'])})"
                     if self.o["range_computed"] and d > 0 and R.random() < 0.5:
                         hi, _ = self.num(env, d - 1, "int", True)
                         self.f("Range_computed")
